@@ -79,7 +79,11 @@ class Gen:
         r = self.r
         pool = SYS_FLAGS + self.kw
         k = r.randint(1, 2)
-        fl = list({r.choice(pool) for _ in range(k)})
+        fl = []
+        for _ in range(k):  # no set: iteration order of a set of str follows PYTHONHASHSEED
+            f = r.choice(pool)
+            if f not in fl:
+                fl.append(f)
         if r.random() < self.p.get("recent_p", 0.03):
             fl.append("\\Recent")
         return fl
